@@ -210,7 +210,7 @@ theorem spec_abs (hbo : BoundsOracle K) {e : Exp (Ext K)} (ih : SpecHolds Src e)
   have hve : ∀ x ∈ varsOf e, inScope s.domain x := fun x hx => hpre.vars x (by simpa [varsOf] using hx)
   have hpe : Pre Src e s := ⟨hpre.inv, hve, hpre.defined.abs⟩
   have henc : ∀ (ρ : String → K) w, DomSat ρ s.domain → eval ρ e = some w → Encl (boundsOf s.bounds e) w :=
-    fun ρ w hd hw => hbo _ ρ e w (hpre.inv.box ρ hd) hw
+    fun ρ w hd hw => hbo.on (hpre.inv.box ρ hd) hve hw
   by_cases h1 : Arith.ge (boundsOf s.bounds e).lower (Arith.zero : Ext K) = true
   · -- sign known: non-negative
     rw [linExp] at h
